@@ -88,11 +88,19 @@ def run(tier, seed, replay=None):
     replay_cases, replay_meta = [], []
     n_skipped_tie = 0
     n_identity = 0
+    n_struct = 0
+    svd_rec = []
+    orig_svd = D.SVD
+    def spy_svd(mat):
+        u, s_, v = orig_svd(mat)
+        svd_rec.append((mat.detach().clone(), u.detach().clone(), s_.detach().clone(), v.detach().clone()))
+        return u, s_, v
     try:
         D.rank_chop = spy
+        D.SVD = spy_svd
         for i in range(n):
             case = gen_case(rng, i)
-            rec.clear()
+            rec.clear(); svd_rec.clear()
             A, shape, eps, rmax, dtype, src, family = case
             if i % 4 == 3 and family != "tie":          # the contract is relative: tiny and huge absolute scales
                 sc = rng.choice([1e-30, 1e-18, 1e-9, 1e9, 1e20]) if dtype not in (torch.float32, torch.complex64) else rng.choice([1e-12, 1e-6, 1e6])
@@ -124,6 +132,29 @@ def run(tier, seed, replay=None):
                 n_identity += 1
                 if abs(err2 - disc) > tol_id:
                     V.fail("squared error differs from the sum of the discarded energies [%s]" % family, dict(desc, err2=err2, discarded=disc, R=Rk))
+            # the model's sweep_cores / stage relations on the implementation's own SVD factors (tensors only): core k is the reshaped kept
+            # factor, the next remainder is diag(s) v, the last core is the final remainder; the oracle hypotheses (orthonormal U, U^H C = S V)
+            is_op_ = shape is not None and isinstance(shape[0], tuple)
+            if not is_op_ and not fails and len(svd_rec) == len(Rk) - 2 and len(Rk) > 2:
+                Nk = [int(v_) for v_ in x.N]; n_struct += 1
+                htol = 1e-4 if dtype in (torch.float32, torch.complex64) else 1e-11
+                prev = None
+                for k_, (Cm, u_, s__, v_) in enumerate(svd_rec):
+                    r_ = Rk[k_ + 1]
+                    if not torch.equal(x.cores[k_], u_[:, :r_].reshape(Rk[k_], Nk[k_], r_)):
+                        V.fail("correspondence(model/impl): core %d is not the reshaped kept left factor (sweep_cores)" % k_, desc, failing_input=False); break
+                    if prev is not None and not torch.equal(Cm, prev.reshape(Rk[k_] * Nk[k_], -1)):
+                        V.fail("correspondence(model/impl): remainder of bond %d is not the reshaped diag(s) v of the previous bond (stage_next)" % k_, desc, failing_input=False); break
+                    prev = torch.diag(s__[:r_]) @ v_[:r_, :]
+                    uk = u_[:, :r_]
+                    if float((uk.conj().T @ uk - torch.eye(r_, dtype=uk.dtype)).abs().max()) > htol:
+                        V.fail("hypothesis orth_stages: the kept left factor is not orthonormal [%s]" % family, dict(desc, bond=k_)); break
+                    cn = float(Cm.abs().pow(2).sum().sqrt())
+                    if float((uk.conj().T @ Cm - prev).abs().pow(2).sum().sqrt()) > 100 * htol * cn + 1e-300:
+                        V.fail("hypothesis spectrum_link: U^H C differs from diag(s) v [%s]" % family, dict(desc, bond=k_)); break
+                else:
+                    if not torch.equal(x.cores[-1], prev.reshape(Rk[-2], Nk[-1], 1)):
+                        V.fail("correspondence(model/impl): the last core is not the final remainder (sweep_cores)", desc, failing_input=False)
             # decisions: threshold passed to rank_chop, and the rank chosen, against the model
             is_op = shape is not None and isinstance(shape[0], tuple)
             d = len(shape) if shape is not None else np.asarray(A).ndim
@@ -139,6 +170,7 @@ def run(tier, seed, replay=None):
                 replay_cases.append((q, eps_arg > 0, thr2)); replay_meta.append((desc, r, s.tolist()))
     finally:
         D.rank_chop = orig
+        D.SVD = orig_svd
     n_replay_ok = 0
     if ok_make and replay_cases:
         mres = coqrun.eval_nat_lists("C01_l3", IMPORTS, "", model_rank_exprs(replay_cases))
@@ -156,9 +188,11 @@ def run(tier, seed, replay=None):
               "and counted), the threshold argument is compared with eps/sqrt(d-1)*||s||, and error / shape / rank bounds are measured; non-trivial = a case in which a rank "
               "decision was replayed; distinct = distinct case descriptions"),
         samples=samples, distribution=dist, rank_chop_direct_agreements=n_l1_ok, rank_decisions_replayed=len(replay_cases),
-        rank_decisions_agree=n_replay_ok, near_ties_skipped=n_skipped_tie, error_equals_sum_of_discarded_energies_checked=n_identity, known_findings_reproduced=V.known_hit,
+        rank_decisions_agree=n_replay_ok, near_ties_skipped=n_skipped_tie, error_equals_sum_of_discarded_energies_checked=n_identity, sweeps_with_core_structure_and_hypotheses_checked=n_struct, known_findings_reproduced=V.known_hit,
         partial=["floating-point round-off and LAPACK's SVD are modelled as exact truncated SVDs (oracle hypotheses spectrum_link / orth_stages of tt_svd_error_bound); the identity "
-                 "'squared error = sum of discarded energies' that the theorem derives is also measured on every case; the bridge 'chain of cores = recursive matrix reconstruction' is by construction of the model"])
+                 "'squared error = sum of discarded energies' that the theorem derives is also measured on every case; the bridge 'chain of cores = recursive matrix reconstruction' is now a theorem "
+                 "(C01_sweep_cores_entry) and the relations it starts from (core k = reshaped kept factor, next remainder = diag(s) v, last core = final remainder) are compared bitwise with "
+                 "the implementation's own SVD factors on every tensor case, the oracle hypotheses (orthonormal U, U^H C = S V) are measured there"])
     common.write_evidence(PID, tier, seed, cov, time.time() - t0, nviol, common.TRUSTED_BASE)
     return 1 if nviol else 0
 
